@@ -652,10 +652,25 @@ private:
         if (has_payload) {
             fields["PAYLOAD-LENGTH"] = std::to_string(payload.size());
         }
+        // One header per line: line breaks and backslashes inside a value are escaped (as \n, \r and \\) so that
+        // multi-line values (chunk list, warnings, endpoints) cannot end the header block early.
+        const auto escape_value = [](const std::string& value) {
+            std::string escaped;
+            escaped.reserve(value.size());
+            for (const char ch : value) {
+                switch (ch) {
+                    case '\\': escaped += "\\\\"; break;
+                    case '\n': escaped += "\\n"; break;
+                    case '\r': escaped += "\\r"; break;
+                    default: escaped.push_back(ch); break;
+                }
+            }
+            return escaped;
+        };
         std::ostringstream oss;
         oss << "STATUS:" << (success ? "OK" : "ERROR") << "\n";
         for (const auto& [key, value] : fields) {
-            oss << key << ':' << value << "\n";
+            oss << key << ':' << escape_value(value) << "\n";
         }
         oss << "\n";
         const auto response = oss.str();
